@@ -286,14 +286,14 @@ func (c *Check) Finish() int {
 	for _, l := range lines {
 		fmt.Println(l)
 	}
-	if len(c.undecided) > 0 {
-		for _, u := range c.undecided {
-			fmt.Printf("UNDECIDED property=%s reason=%s\n", c.Prop, u)
-		}
-		return 2
+	for _, u := range c.undecided {
+		fmt.Printf("UNDECIDED property=%s reason=%s\n", c.Prop, u)
 	}
 	if violations > 0 {
 		return 1
+	}
+	if len(c.undecided) > 0 {
+		return 2
 	}
 	return 0
 }
